@@ -1,6 +1,6 @@
 #!/bin/bash
 # round 5: validate /tmp/seed5/<P>/mut9, mut10 for the properties given as arguments
-cd /verif  # (copy of work/seedbatch5.sh, tracked)
+cd /verif
 mkdir -p work/seedres5
 for p in "$@"; do for m in mut9 mut10; do
   [ -f /tmp/seed5/$p/$m/patch.diff ] && [ ! -f work/seedres5/$p-$m.json ] && echo "$p $m"
